@@ -725,6 +725,31 @@ def _mentions(term, head):
     return term == head
 
 
+def _gens_in(term, prog):
+    """generator functions named by ("gen", name) sub-terms"""
+    out = []
+    if isinstance(term, tuple):
+        if len(term) == 2 and term[0] == "gen":
+            out += [g for g in emit.generator_fns(prog) if g.name == term[1]]
+        for x in term[1:]:
+            out += _gens_in(x, prog)
+    return out
+
+
+def _evaluates_user_code(prog, T, g, seen=None):
+    """the generator function (or one it calls) evaluates an expression other than the FOR counter"""
+    seen = seen if seen is not None else set()
+    if g.id in seen:
+        return False
+    seen.add(g.id)
+    for e in T.evs(g).values():
+        if e.kind in ("EXPR", "BLOCK", "STMT") and not common.evaluates_for_counter(prog, T, g, e):
+            return True
+        if e.kind == "gen" and e.callee is not None and _evaluates_user_code(prog, T, e.callee, seen):
+            return True
+    return False
+
+
 def r10_for_step_as_evaluated(ctx, T, rule="C02.R10"):
     """`FOR as the equivalent WHILE ... for run-time-computed steps`: the WHILE spelling computes
     `counter = counter + step` - one addition of the step as it was evaluated, one conversion of the
@@ -744,6 +769,7 @@ def r10_for_step_as_evaluated(ctx, T, rule="C02.R10"):
         construct = common.generator_construct_of(prog, f)
         seen_plus = False
         bad = None
+        reeval = None
         step_regs = set()
         step_cells = set()
 
@@ -767,8 +793,21 @@ def r10_for_step_as_evaluated(ctx, T, rule="C02.R10"):
                     bad = (e, regs["b"])
                 elif _mentions(regs["b"], "after-user-code") or _mentions(regs["b"], "unknown"):
                     bad = (e, regs["b"])
+                elif _mentions(regs["b"], "EXPR") or any(_evaluates_user_code(prog, T, g_) for g_ in _gens_in(regs["b"], prog)):
+                    # the step is evaluated again inside the loop: the equivalent WHILE adds the step the
+                    # FOR line computed once (`FOR i = 1 TO 10 STEP s` with `s` assigned in the body)
+                    reeval = (e, regs["b"])
         if not seen_plus:
             raise CheckError("%s: no increment (Plus after the body) in %s" % (rule, f.name))
+        n += 1
+        ctx.decide(reeval is None, rule, "%s:%s:step-evaluated-once" % (rule, construct), f.loc,
+                   "the increment adds a value that was computed before the loop",
+                   "the second operand of the increment's Plus at line %s is %s: the STEP expression is evaluated again on "
+                   "every iteration, so a loop whose body changes a variable of the STEP expression walks differently from "
+                   "the equivalent WHILE, which adds the step computed by the FOR line" %
+                   (reeval[0].line if reeval else "", reeval[1] if reeval else ""))
+        if reeval is not None:
+            continue
         if not step_regs and not step_cells:
             raise CheckError("%s: the step of %s comes neither from a register nor from a variable handed in" % (rule, f.name))
         n += 1
